@@ -1318,7 +1318,7 @@ Import ZArith.
 Import ListNotations.
 Import Pyrefact.RulesPerfModel Pyrefact.RulesPerfProofs.
 
-(* remove_redundant_iter (after 32fac44, 5ea8100, 48376de): for every module of the fragment, every world and
+(* remove_redundant_iter (after 32fac44, 5ea8100, 116947d): for every module of the fragment, every world and
    every loop budget the rewritten module ends with the same exception class, environment, lists, iterator
    positions and event trace. *)
 Theorem T02p_remove_redundant_iter_preserves : forall W fuel p, run W fuel (rri p) = run W fuel p.
@@ -1331,20 +1331,20 @@ Theorem T02p_old_iter_generator_refuted :
 Proof. exact rri_before_32fac44_refuted. Qed.
 Print Assumptions T02p_old_iter_generator_refuted.
 
-(* the rule before 48376de (names of lists): the loop body mutates what it iterates over (F02-65) *)
+(* the rule before 116947d (names of lists): the loop body mutates what it iterates over (F02-65) *)
 Theorem T02p_old_iter_snapshot_refuted :
-  exists W fuel p, obs (run W fuel (rri_before_48376de p)) <> obs (run W fuel p).
-Proof. exact rri_before_48376de_refuted. Qed.
+  exists W fuel p, obs (run W fuel (rri_before_116947d p)) <> obs (run W fuel p).
+Proof. exact rri_before_116947d_refuted. Qed.
 Print Assumptions T02p_old_iter_snapshot_refuted.
 
 Example T02p_iter_examples :
   rri p_interleave = p_interleave /\ rri p_snapshot = p_snapshot /\
   obs (run W12 5 p_snapshot) = (None, [EvPrint (RList [])]) /\
-  obs (run W12 5 (rri_before_48376de p_snapshot)) = (None, [EvPrint (RList [2%Z])]).
+  obs (run W12 5 (rri_before_116947d p_snapshot)) = (None, [EvPrint (RList [2%Z])]).
 Proof. repeat split; reflexivity. Qed.
 
 (* optimize_contains_types, the wrapper part ('a in list(c)' -> 'a in c', 'a in [c for c in xs]' -> generator;
-   after 2835a2e, 5ea8100, 653d272): preserved for every module *)
+   after 2835a2e, 5ea8100, 1454583): preserved for every module *)
 Theorem T02p_contains_wrappers_preserves : forall W fuel p, run W fuel (oct_wrappers p) = run W fuel p.
 Proof. exact oct_wrappers_preserves. Qed.
 Print Assumptions T02p_contains_wrappers_preserves.
@@ -1359,7 +1359,7 @@ Theorem T02p_contains_partial : forall W fuel p, prog_all oct_safe p = true -> r
 Proof. exact oct_partial. Qed.
 Print Assumptions T02p_contains_partial.
 
-(* the rule before 2835a2e / 653d272 (any argument): an iterator is used up by list() but only up to the first
+(* the rule before 2835a2e / 1454583 (any argument): an iterator is used up by list() but only up to the first
    hit by `in`; a generator expression stops at the first hit *)
 Theorem T02p_old_contains_consumption_refuted :
   exists W fuel p, obs (run W fuel (oct_before_2835a2e p)) <> obs (run W fuel p).
@@ -1368,7 +1368,7 @@ Print Assumptions T02p_old_contains_consumption_refuted.
 
 Theorem T02p_old_contains_lazy_refuted :
   exists W fuel p, obs (run W fuel (oct_before_2835a2e p)) <> obs (run W fuel p).
-Proof. exact oct_before_653d272_refuted. Qed.
+Proof. exact oct_before_1454583_refuted. Qed.
 Print Assumptions T02p_old_contains_lazy_refuted.
 
 Example T02p_contains_examples :
